@@ -12,7 +12,7 @@
 From Coq Require Import List ZArith.
 From Coq Require Import Reals.
 From Flocq Require Import IEEE754.Binary IEEE754.Bits.
-From RtoscV Require Import Auto.F32 Auto.AutoModel Auto.AutoMapModel Auto.AutoProofs Auto.AutoMapProofs Auto.AutoRemapProofs Auto.FloatOrder Auto.AutoMonoProofs Auto.AutoCpProofs Auto.AutoRegress Auto.AutoMapRegress.
+From RtoscV Require Import Auto.F32 Auto.AutoModel Auto.AutoMapModel Auto.AutoProofs Auto.AutoMapProofs Auto.AutoRemapProofs Auto.FloatOrder Auto.AutoMonoProofs Auto.AutoCpProofs Auto.AutoDefaultProofs Auto.AutoRegress Auto.AutoMapRegress.
 Import ListNotations.
 Local Open Scope Z_scope.
 
@@ -232,3 +232,47 @@ Theorem C19_in_range_regress :
   is_nan 24 128 (clamp_old v (s_min huge_gain_sub) (s_max huge_gain_sub)) = true /\
   bits_of_b32 (clamp v (s_min huge_gain_sub) (s_max huge_gain_sub)) = 3212836864.
 Proof. exact nan_clamp_refuted. Qed.
+
+(* ---- stage 2: the default mapping without the decidable side condition ------------------ *)
+(* updateMapping at gain 100 / offset 0 yields control points equal to the bounds
+   whenever its four binary32 operations are exact: min+max, (min+max)/2, max-min
+   and (max-min)*100 representable ([F32]) and below 2^128 *)
+Theorem C19_default_points_exact : forall mn mx : f32,
+  finite32 mn -> finite32 mx ->
+  F32 (val mn + val mx) -> F32 ((val mn + val mx) / 2) ->
+  F32 (val mx - val mn) -> F32 ((val mx - val mn) * 100) ->
+  (Rabs (val mn + val mx) < Mx 128)%R -> (Rabs ((val mx - val mn) * 100) < Mx 128)%R ->
+  let c := map_center mn mx f32_0 in
+  let r := map_range mn mx f32_100 in
+  finite32 (map_cp1 c r) /\ finite32 (map_cp3 c r) /\
+  val (map_cp1 c r) = val mn /\ val (map_cp3 c r) = val mx.
+Proof. exact default_points_exact_if. Qed.
+
+(* every integer range with |a+b| < 2^24 and |b-a|*100 < 2^24 is of that kind *)
+Theorem C19_default_points_exact_int : forall (mn mx : f32) a b,
+  finite32 mn -> finite32 mx -> val mn = IZR a -> val mx = IZR b ->
+  Z.abs (a + b) < 2 ^ 24 -> Z.abs ((b - a) * 100) < 2 ^ 24 ->
+  let c := map_center mn mx f32_0 in
+  let r := map_range mn mx f32_100 in
+  finite32 (map_cp1 c r) /\ finite32 (map_cp3 c r) /\
+  val (map_cp1 c r) = IZR a /\ val (map_cp3 c r) = IZR b.
+Proof. exact default_points_exact_int. Qed.
+
+(* between such control points the slot value v is mapped to
+   fl(fl(v*(max-min)) + min): 0 goes to min and 1 goes to max, exactly *)
+Theorem C19_default_linear : forall (a b : f32) (mn mx : R),
+  val a = mn -> val b = mx -> F32 (mx - mn) ->
+  (forall v, finite32 (lin v a b) -> val (lin v a b) = rnd32 (rnd32 (val v * (mx - mn)) + mn)) /\
+  (finite32 (lin f32_0 a b) -> val (lin f32_0 a b) = mn) /\
+  (finite32 (lin f32_1 a b) -> val (lin f32_1 a b) = mx).
+Proof. exact default_linear_exact. Qed.
+
+(* for other ranges the statement "0 goes to min" is false at the last bits:
+   0.1 .. 0.7 gets control_points[1] = min + 3 ulp (same on the real code) *)
+Theorem C19_default_points_inexact_refuted :
+  let mn := b32_of_bits 1036831949 in let mx := b32_of_bits 1060320051 in
+  let c := map_center mn mx f32_0 in let r := map_range mn mx f32_100 in
+  default_points_exact mn mx = false /\
+  bits_of_b32 (map_cp1 c r) = 1036831952 /\ bits_of_b32 (map_cp3 c r) = 1060320051 /\
+  bits_of_b32 (clamp (lin f32_0 (map_cp1 c r) (map_cp3 c r)) mn mx) = 1036831952.
+Proof. exact default_points_inexact_witness. Qed.
